@@ -2,6 +2,7 @@ package genyang
 
 import (
 	"fmt"
+	"sort"
 	"strings"
 
 	"verif/tape"
@@ -58,6 +59,10 @@ type Set struct {
 	Ops      []string // ill-formedness operators applied
 	Probes   map[string]bool
 	Touched  []*Module // the module an ill-formedness operator started from (it usually holds the damage)
+	// Aliases: further entries of the set, supplied under a key that is NOT the (sub)module's name (an older
+	// revision under "name@date"). NOT generated: the compiler resolves imports and includes by map key, so
+	// such a map is outside what the property quantifies over (DESIGN.md 11.5, observation O-2)
+	Aliases map[string]string
 }
 
 type gen struct {
@@ -1918,14 +1923,20 @@ func (s *Set) Texts() map[string]string {
 	for _, m := range s.Mods {
 		out[m.Name] = m.Root.Text()
 	}
+	for k, v := range s.Aliases {
+		out[k] = v
+	}
 	return out
 }
-
-// Names returns module names in generation order.
 func (s *Set) Names() []string {
 	var out []string
 	for _, m := range s.Mods {
 		out = append(out, m.Name)
 	}
-	return out
+	var ks []string
+	for k := range s.Aliases {
+		ks = append(ks, k)
+	}
+	sort.Strings(ks)
+	return append(out, ks...)
 }
